@@ -263,7 +263,7 @@ pub fn propagate_input_expressions(
                 address: expression,
             } => {
                 // insert known input expressions
-                for (input_var, input_expr) in insertable_expressions.iter() {
+                for (input_var, input_expr) in sorted_by_variable(&insertable_expressions) {
                     expression.substitute_input_var(input_var, input_expr);
                 }
                 // expressions dependent on the assigned variable are no longer insertable
@@ -273,7 +273,7 @@ pub fn propagate_input_expressions(
             }
             Def::Store { address, value } => {
                 // insert known input expressions
-                for (input_var, input_expr) in insertable_expressions.iter() {
+                for (input_var, input_expr) in sorted_by_variable(&insertable_expressions) {
                     address.substitute_input_var(input_var, input_expr);
                     value.substitute_input_var(input_var, input_expr);
                 }
@@ -290,12 +290,25 @@ pub fn propagate_input_expressions(
             | Jmp::CallInd { target: expr, .. }
             | Jmp::Return(expr) => {
                 // insert known input expressions
-                for (input_var, input_expr) in insertable_expressions.iter() {
+                for (input_var, input_expr) in sorted_by_variable(&insertable_expressions) {
                     expr.substitute_input_var(input_var, input_expr);
                 }
             }
         }
     }
+}
+
+/// The entries of the map in the order of their keys.
+///
+/// Substituting one entry can introduce variables that another entry substitutes,
+/// so the result of inserting all entries depends on the order.
+/// A fixed order makes it independent of the hash seed of the map.
+fn sorted_by_variable(
+    insertable_expressions: &HashMap<Variable, Expression>,
+) -> Vec<(&Variable, &Expression)> {
+    let mut entries: Vec<(&Variable, &Expression)> = insertable_expressions.iter().collect();
+    entries.sort_by(|left, right| left.0.cmp(right.0));
+    entries
 }
 
 /// Merge subsequent assignments to the same variable to a single assignment to that variable.
